@@ -27,6 +27,11 @@ class MachineryError(Exception):
     pass
 
 
+class Hang(Exception):
+    """raised after a non-terminating driver has been recorded as a violation; the check stops and reports"""
+    pass
+
+
 class TlcResult:
     def __init__(self, rc, out, wall):
         self.rc = rc
@@ -235,11 +240,22 @@ class Run:
         e = dict(os.environ)
         if env:
             e.update({k: str(v) for k, v in env.items()})
-        try:
-            r = subprocess.run(cmd, capture_output=True, text=True, timeout=timeout, env=e, input=stdin,
-                               cwd=cwd or self.scratch)
-        except subprocess.TimeoutExpired:
-            raise MachineryError("harness timed out: %s" % " ".join(map(str, cmd)))
+        r = None
+        for attempt, tmo in enumerate((timeout, 2 * timeout)):
+            try:
+                r = subprocess.run(cmd, capture_output=True, text=True, timeout=tmo, env=e, input=stdin,
+                                   cwd=cwd or self.scratch)
+                break
+            except subprocess.TimeoutExpired:
+                continue
+        if r is None:
+            # the driver runs the library on in-contract inputs, for which every specification here says the call returns;
+            # a driver that does not finish twice (the second time with twice the time) is reported as a violation, not
+            # as a machinery failure: a change that breaks progress must not be able to hide behind a hang
+            self.violation("a call into the library did not return: the driver '%s' did not finish within %d s and, re-run, within %d s"
+                           % (" ".join(os.path.basename(str(c)) for c in cmd[:4]), timeout, 2 * timeout),
+                           {"cmd": [str(c) for c in cmd], "env": {k: str(v) for k, v in (env or {}).items()}}, name="hang")
+            raise Hang()
         if ok_codes is not None and r.returncode not in ok_codes:
             raise MachineryError("harness failed rc=%d: %s\n%s\n%s" % (r.returncode, " ".join(map(str, cmd)),
                                                                        r.stdout[-2000:], r.stderr[-4000:]))
